@@ -62,14 +62,23 @@ class Socket:
         try:
             if timeout != 0:
                 self.sock.settimeout(timeout)
-            data = self.sock.recv(256)
+            data = self._recv()
+            while len(data) < HEADER_SIZE:
+                data += self._recv()
             data_len = struct.unpack_from("<H", data, 2)[0]
             while len(data) - HEADER_SIZE < data_len:
-                data += self.sock.recv(256)
+                data += self._recv()
 
             return data
         except socket.error as err:
             raise CommError("socket connection broken") from err
+
+    def _recv(self):
+        data = self.sock.recv(256)
+        if not data:
+            # an empty read means the peer closed the connection
+            raise CommError("socket connection broken.")
+        return data
 
     def close(self):
         self.sock.close()
